@@ -56,6 +56,11 @@ def compare(spec, nxt, ref, st, engine, case, out_problems):
             if reason:
                 st.inc(f"skipped:{reason}")
                 continue
+            if e != e or abs(e) == float("inf"):
+                # the model itself is undefined here (e.g. an unlimited ramp with infinite desired flow times a
+                # zero speed): outside the admissible domain, nothing to compare
+                st.inc("skipped:reference-not-finite")
+                continue
             st.inc("components_compared")
             if not close(float(g), e):
                 out_problems.append((comp_signature(spec, key, var, j),
@@ -129,11 +134,13 @@ def check_spec(spec: NetSpec, label, st: Stats, plan):
             if plan.get("products") and full:
                 A = refmodel.allowed_dependencies(spec, "delta" in P, "phi" in P)
                 done = set()
-                for outc, cone in sorted(A.items()):
+                for ci, (outc, cone) in enumerate(sorted(A.items())):
                     cone = tuple(sorted(cone))[:plan["products"]]
                     if cone in done:
                         continue
                     done.add(cone)
+                    if plan.get("cone_slice") and ci % plan["cone_slice"][1] != plan["cone_slice"][0]:
+                        continue
                     pv = list(valgen.local_products(spec, cone, 0))
                     st.inc("product_cones")
                     for k0 in range(0, len(pv), 8192):
@@ -169,22 +176,27 @@ def plans(tier, seed):
     pal = seed % 3
     if tier == "quick":
         jobs = [({"np_d": 1, "cs_d": 1, "psets": [0, 1], "cs_sym": ["SX"]},
-                 [(lab, s) for _, lab, s in all_specs(3, 4, 1, pal)])]
-        bounds = {"shapes": "(n,m)<=(3,4)", "config_deviation": 1, "numpy_value_deviation": 1, "casadi_value_deviation": 1,
+                 [(lab, s) for _, lab, s in all_specs(3, 3, 1, pal)])]
+        bounds = {"shapes": "(n,m)<=(3,3)", "config_deviation": 1, "numpy_value_deviation": 1, "casadi_value_deviation": 1,
                   "palette": pal, "param_sets": [0, 1]}
     else:
-        a = [(lab, s) for _, lab, s in all_specs(3, 4, 2, pal)]
-        b = [(lab, s) for _, lab, s in all_specs(4, 5, 1, pal) if s.n == 4]
-        c = [(lab, s) for _, lab, s in all_specs(3, 3, 1, (pal + 1) % 3)]
+        a = [(lab, s) for _, lab, s in all_specs(3, 4, 1, pal)]
+        a2 = [(lab, s) for _, lab, s in all_specs(3, 3, 2, pal)]
+        b = [(lab, s) for _, lab, s in all_specs(4, 4, 1, pal) if s.n == 4]
+        b2 = [(lab, s) for _, lab, s in all_specs(4, 5, 0, pal) if s.n == 4 and len(s.links) == 5]
+        c = [(lab, s) for _, lab, s in all_specs(3, 3, 0, (pal + 1) % 3)]
         h = [(f"harness:{k}", s) for k, s in harness_specs(pal).items()]
         jobs = [
             ({"np_d": 1, "cs_d": 1, "psets": [0, 1, 2, 3], "cs_sym": ["SX"]}, a),
-            ({"np_d": 1, "cs_d": 1, "psets": [0, 1], "cs_sym": ["SX"]}, b),
+            ({"np_d": 1, "cs_d": 0, "psets": [0], "cs_sym": ["SX"]}, a2),
+            ({"np_d": 1, "cs_d": 1, "psets": [0], "cs_sym": ["SX"]}, b),
+            ({"np_d": 0, "cs_d": 1, "psets": [1], "cs_sym": ["SX"]}, b2),
             ({"np_d": 0, "cs_d": 2, "psets": [0, 1], "cs_sym": ["SX", "MX"]}, c),
             ({"np_d": 1, "cs_d": 2, "psets": [0, 1], "cs_sym": ["SX"], "products": 7}, h),
         ]
-        bounds = {"shapes": "(3,4) c<=2; 4-node shapes (4,5) c<=1; (3,3) c<=1 with pair excursions on a second palette; "
-                            "harness list with local full products over cones of <= 7 scalars",
+        bounds = {"shapes": "(3,4) c<=1 with 4 parameter sets; (3,3) c<=2; 4-node shapes (4,4) c<=1 and (4,5) base+uniform; "
+                            "(3,3) base+uniform with pair excursions on SX and MX (second palette); harness list with local "
+                            "full products over cones of <= 7 scalars",
                   "palette": pal, "param_sets": [0, 1, 2, 3]}
     return jobs, bounds
 
@@ -195,7 +207,13 @@ def explore(tier, seed, nproc):
     nets = 0
     for plan, specs in jobs:
         nets += len(specs)
-        shards = [(plan, sh) for sh in shards_of(specs, nproc * 8)]
+        if plan.get("products"):
+            # few networks, heavy work per cone: shard on (network, cone slice)
+            K = 16
+            shards = [(dict(plan, cone_slice=(k, K), np_d=plan["np_d"] if k == 0 else -1,
+                            cs_d=plan["cs_d"] if k == 0 else -1), [x]) for x in specs for k in range(K)]
+        else:
+            shards = [(plan, sh) for sh in shards_of(specs, nproc * 8)]
         st.merge(run_shards(worker, shards, nproc))
     cov = {
         "bounds": bounds,
